@@ -240,8 +240,15 @@ fn single_section(name: &str, toks: &[Tok], method: &str) -> Result<Shape, Strin
     if !matches!(toks.first(), Some(Tok::Lock { .. })) {
         return bad("something is accessed before the lock is taken");
     }
-    if toks.iter().any(|t| matches!(t, Tok::Drop(_))) {
-        return bad("a guard is dropped explicitly");
+    // an explicit drop of the guard is fine once the RawList call is done
+    let call_at = toks.iter().position(|t| matches!(t, Tok::Call { .. }));
+    for (i, t) in toks.iter().enumerate() {
+        if let Tok::Drop(n) = t {
+            let is_guard = matches!(bound, Some(g) if g == n);
+            if is_guard && call_at.map(|c| i < c).unwrap_or(true) {
+                return bad("the guard is dropped before the RawList call");
+            }
+        }
     }
     let calls: Vec<(&String, &String)> = toks
         .iter()
